@@ -1,6 +1,6 @@
 (* C11 — sorting and renumbering give canonical order; binary lookup equals linear scan. *)
 From Coq Require Import List Ascii ZArith Bool Arith Lia Permutation.
-From PV Require Import Base.Sx Base.Text Base.Sorting2 Spec.Hier Model.SortRenumber Model.BinFind Proofs.C11find.
+From PV Require Import Base.Sx Base.Text Base.Sorting2 Spec.Hier Model.SortRenumber Model.BinFind Proofs.C11find Proofs.C11renum.
 Import ListNotations.
 
 (* 1. every sort of the family is a stable sort by the level's identifier: ordered, nothing added or lost,
@@ -87,6 +87,16 @@ Theorem C11_binary_find_is_linear_find : forall p n alt,
   end -> PDB_bfind range_cmp p n alt = lin_pdb p n alt.
 Proof. exact PDB_bfind_linear. Qed.
 
+(* renumber hands out the serial numbers 1, 2, 3, ... in traversal order, so on every renumbered structure without empty
+   containers the binary look-up is the linear scan *)
+Theorem C11_renumbered_serials_increase : forall p,
+  match renumber p with [] => True | m :: _ => increasing (serials (m_atoms m)) = true end.
+Proof. exact renumbered_increasing. Qed.
+Theorem C11_binary_find_on_renumbered : forall p n alt,
+  (forall m, In m p -> forall c, In c (m_chains m) -> ch_residues c <> [] /\ forall r, In r (ch_residues c) -> r_atoms r <> []) ->
+  PDB_bfind range_cmp (renumber p) n alt = lin_pdb (renumber p) n alt.
+Proof. exact renumbered_find. Qed.
+
 Print Assumptions C11_sort_atoms.
 Print Assumptions C11_sort_conformers.
 Print Assumptions C11_sort_residues.
@@ -99,3 +109,5 @@ Print Assumptions C11_binary_find_is_linear_find_conformer.
 Print Assumptions C11_binary_find_is_linear_find_chain.
 Print Assumptions C11_binary_find_is_linear_find_model.
 Print Assumptions C11_binary_find_is_linear_find.
+Print Assumptions C11_renumbered_serials_increase.
+Print Assumptions C11_binary_find_on_renumbered.
